@@ -24,7 +24,7 @@ pub static mut VERIF_RSP_SLOT: u64 = 0;
 /// on the calling thread - helpers that re-enter the library are legal
 pub static NESTED: std::sync::atomic::AtomicU8 = std::sync::atomic::AtomicU8::new(0);
 
-fn nested_run(mode: u8) {
+pub fn nested_run(mode: u8) {
     use std::sync::OnceLock;
     static P: OnceLock<Vec<u8>> = OnceLock::new();
     let prog = P.get_or_init(|| {
@@ -963,8 +963,18 @@ fn c07_cases(thorough: bool) -> Vec<C07Case> {
 }
 
 pub fn run_c07(s: &mut Sink) {
+    run_c07_on(s, &[Eng::Interp, Eng::Jit], 0, true);
+}
+
+/// The call-graph corpus on the JIT only, as part of C03 (group indices from `g0`).
+pub fn run_c07_jit(s: &mut Sink, g0: u64) {
+    run_c07_on(s, &[Eng::Jit], g0, false);
+}
+
+fn run_c07_on(s: &mut Sink, engines: &[Eng], g0: u64, with_meta: bool) {
     let thorough = s.tier == Tier::Thorough;
     let cases = c07_cases(thorough);
+    if with_meta {
     s.meta.insert("alphabet".into(), json!({
         "call_graphs": "chains main -> f1 -> ... -> fd for d = 0..9 laid out forward or backward (negative displacements); binary call trees (every function calls its callee twice) of depth 1..4; self-recursion bounded by a counter in r1 for depth 0..9",
         "bodies": "16 combinations of {set r6-r9 in every function, stack tag at [r10-8] written and read back after the call, lowest slot of the frame touched, helper call inside every function}",
@@ -975,8 +985,11 @@ pub fn run_c07(s: &mut Sink) {
     }));
     s.meta.insert("bound".into(), json!({"max_depth": 9, "programs": cases.len()}));
     s.meta.insert("rule".into(), json!("case = (call graph, layout, body bits, calculator, register value, engine); non-trivial = at least one local call executed"));
-    let mut g = 0u64;
-    for eng in [Eng::Interp, Eng::Jit] {
+    } else {
+        s.meta.insert("call_graphs".into(), json!({"programs": cases.len(), "what": "the call-graph corpus of C07 (chains, trees, recursion; bodies; calculators), JIT against the interpreter"}));
+    }
+    let mut g = g0;
+    for eng in engines.iter().copied() {
         for chunk in cases.chunks(32) {
             let idx = g;
             g += 1;
